@@ -54,6 +54,8 @@ func verifPgKeysT(symbolic bool) *vks.Store {
 	}
 	s.AddSym("A", ka)
 	s.AddSym("B", kb)
+	s.HMAC["A"] = []byte("hmac-key-of-client-A-0123456789ab")
+	s.HMAC["B"] = []byte("hmac-key-of-client-B-0123456789ab")
 	for _, id := range []string{"A", "B"} {
 		kp, _ := keys.New(keys.TypeEC)
 		s.AddPair(id, kp)
@@ -76,10 +78,14 @@ type verifPg struct {
 }
 
 func verifNewPg(store *vks.Store, client string, envelope config.CryptoEnvelopeType) *verifPg {
-	crypto.InitRegistry(nil)
 	env := envelope
-	schema, err := config.VerifNewStore(false, "t", []string{"id", "secret", "plain"},
-		&config.BasicColumnEncryptionSetting{Name: "secret", UsedClientID: "A", CryptoEnvelope: &env})
+	return verifNewPgWith(store, client, &config.BasicColumnEncryptionSetting{Name: "secret", UsedClientID: "A", CryptoEnvelope: &env})
+}
+
+func verifNewPgWith(store *vks.Store, client string, setting0 *config.BasicColumnEncryptionSetting) *verifPg {
+	crypto.InitRegistry(nil)
+	cp := *setting0
+	schema, err := config.VerifNewStore(false, "t", []string{"id", "secret", "plain"}, &cp)
 	if err != nil {
 		panic("schema: " + err.Error())
 	}
@@ -189,10 +195,13 @@ func verifDataRow(cols ...[]byte) []byte {
 	return verifFrame('D', body)
 }
 
+// verifPgMarker: n symbolic letters out of "jkqvwxyz" — no three of them in a row occur in the SQL text the
+// deparser prints for these statements (keywords are upper case, identifiers are id/secret/plain/substr/...).
 func verifPgMarker(name string, n int) []byte {
+	const alphabet = "jkqvwxyz"
 	m := verif.Bytes(name, n)
 	for i := range m {
-		m[i] = 'g' + m[i]&15
+		m[i] = alphabet[m[i]&7]
 	}
 	return m
 }
